@@ -237,6 +237,14 @@ class Evaluator:
                 self._assign(e, x, env)
         elif isinstance(t, ast.Subscript):
             self._expr(t.value, env)[self._expr(t.slice, env)] = v
+        elif isinstance(t, ast.Attribute):
+            base = self._expr(t.value, env)
+            if not (self.obj_types and isinstance(base, self.obj_types)):
+                raise Unsupported(f"attribute store {ast.unparse(t)}")
+            try:
+                object.__setattr__(base, t.attr, v)
+            except AttributeError:
+                raise Unsupported(f"attribute store {ast.unparse(t)} (read-only in the stand-in)")
         else:
             raise Unsupported(f"assignment target {type(t).__name__}")
 
